@@ -179,7 +179,10 @@ def evaluate(c):
         pa, pb = two[0]['rows'][k2 - 1][6], two[1]['rows'][k2 - 1][6]
         volts = ['--excitation-voltage=1', '--excitation-voltage=0.5-2j']
         forms = {'abs': ['--excitation-pulse=%d' % pa, '--excitation-pulse=%d' % pb],
-                 'rel': ['--excitation-pulse=%d,%d' % (k2, two[0]['tag']), '--excitation-pulse=%d,%d' % (k2, two[1]['tag'])]}
+                 'rel': ['--excitation-pulse=%d,%d' % (k2, two[0]['tag']), '--excitation-pulse=%d,%d' % (k2, two[1]['tag'])],
+                 # one source in each form (a tag-relative source says nothing about the sources named after it)
+                 'rel+abs': ['--excitation-pulse=%d,%d' % (k2, two[0]['tag']), '--excitation-pulse=%d' % pb],
+                 'abs+rel': ['--excitation-pulse=%d' % pa, '--excitation-pulse=%d,%d' % (k2, two[1]['tag'])]}
         res = {}
         for fn, ex in forms.items():
             for order in (0, 1):
